@@ -32,6 +32,11 @@ class ReadRule(BaseRule):
     def _is_buf(self, node):
         return astq.is_self_attr(node, self.bf)
 
+    def getattr(self, it, st, node, base):
+        if base.kind == "self" and node.attr == self.bf and isinstance(node.ctx, ast.Load):
+            return AV("unk", sym="decoded-queue", none=False)  # the queue, by identity (a local alias keeps it)
+        return None
+
     def call(self, it, st, node, recv, pos, kw):
         t = ast.unparse(node.func)
         f = node.func
@@ -50,7 +55,7 @@ class ReadRule(BaseRule):
             return [Out("normal", s, AV("unk", sym=f"decoded@{node.lineno}", tags=frozenset(tags)))]
         if t == "self._flush_decoder":
             return [Out("normal", st, AV("unk", sym=f"flushed@{node.lineno}", tags=frozenset({"decoded"})))]
-        if isinstance(f, ast.Attribute) and self._is_buf(f.value):
+        if isinstance(f, ast.Attribute) and (self._is_buf(f.value) or (recv is not None and recv.sym == "decoded-queue")):
             if f.attr == "put":
                 s = st.copy()
                 a = pos[0] if pos else UNK
@@ -70,7 +75,7 @@ class ReadRule(BaseRule):
                 if f.attr == "get_all":
                     s.ts["buf_state"] = "empty"
                 return [Out("normal", s, AV("unk", sym=f"from-buffer@{node.lineno}", tags=frozenset({"from-buffer"})))]
-        if t == "len" and node.args and self._is_buf(node.args[0]):
+        if t == "len" and node.args and (self._is_buf(node.args[0]) or (pos and pos[0].sym == "decoded-queue")):
             if st.ts.get("buf_state") == "empty":
                 return [Out("normal", st, const(0))]
             return [Out("normal", st, AV("unk", sym=f"buflen#{st.ts.get('bufgen', 0)}"))]
@@ -330,7 +335,9 @@ def run(ctx):
     ctx.ob(R4, ini.qual, "decoders are listed in header order, one per comma-separated coding", ok, "; ".join(str(r.events("store"))[:100] for r in irows[:1]))
     fl = m.method(md, "flush")
     frows = [r for r in effect_rows(ctx, fl, GenRule(ctx, RS), md) if r.returns]
-    ok = bool(frows) and all(r.ret == T(f"idx({DEC},0).flush") for r in frows)
+    # rows on which the list of decoders is not empty flush its first element; an (unreachable) empty list yields nothing
+    live = [r for r in frows if r.truth(DEC) is not False]
+    ok = bool(live) and all(r.ret == T(f"idx({DEC},0).flush") for r in live) and all(r.ret in (K(b""), T(f"idx({DEC},0).flush")) for r in frows)
     ctx.ob(R4, fl.qual, "flush() flushes the decoder applied last in decompress (first in header order)", ok, "; ".join(r.ret for r in frows))
 
     # ------------------------------------------------------------------ R5 registry / guard agreement
